@@ -257,60 +257,80 @@ def Port.timeMeasurement (p : Port) : R (Port × List Out) := do
       | none => p
     .ok (p, o ++ [.measurement m])
 
+/-- continue with the value, or report the overflow the Rust operator would raise -/
+def orOv {α β : Type} (x : Option α) (f : α → R β) : R β :=
+  match x with
+  | some a => f a
+  | none => .error .overflow
+
+/-- the port with an updated slave state -/
+def Port.withSlave (p : Port) (remote : PortId) (sy : SyncSt) (dl : DelaySt) (last : Option Int) : Port :=
+  { p with st := .slave remote sy dl last }
+
+/-- `handle_sync` once the sender is known to be the parent and the corrected receive time is computed -/
+def Port.syncStore (p : Port) (remote : PortId) (sy : SyncSt) (dl : DelaySt) (last : Option Int)
+    (h : Header) (origin : WireTs) (corrected : Nat) : R (Port × List Out) :=
+  if h.flags.twoStep then
+    match sy with
+    | .measuring id send recv =>
+      if id = h.seq then
+        (match recv with
+         | some _ => .ok (p, [])
+         | none => (p.withSlave remote (.measuring id send (some corrected)) dl last).timeMeasurement)
+      else .ok (p.withSlave remote (.measuring h.seq none (some corrected)) dl last, [])
+    | .empty => .ok (p.withSlave remote (.measuring h.seq none (some corrected)) dl last, [])
+  else
+    match sy with
+    | .measuring id _ _ =>
+      if id = h.seq then .ok (p, [])
+      else orOv (wireToTime origin) fun send =>
+        (p.withSlave remote (.measuring h.seq (some send) (some corrected)) dl last).timeMeasurement
+    | .empty => orOv (wireToTime origin) fun send =>
+        (p.withSlave remote (.measuring h.seq (some send) (some corrected)) dl last).timeMeasurement
+
 def Port.handleSync (p : Port) (h : Header) (origin : WireTs) (recvTime : Nat) : R (Port × List Out) :=
   match p.st with
-  | .slave remote sync delay last =>
+  | .slave remote sy dl last =>
     if remote ≠ h.src then .ok (p, [])
-    else do
-      let corrected ← liftOv (timeSubDur recvTime (tivToDur h.correction))
-      if h.flags.twoStep then
-        match sync with
-        | .measuring id send recv =>
-          if id = h.seq then
-            (match recv with
-             | some _ => .ok (p, [])
-             | none => ({ p with st := .slave remote (.measuring id send (some corrected)) delay last }).timeMeasurement)
-          else .ok ({ p with st := .slave remote (.measuring h.seq none (some corrected)) delay last }, [])
-        | .empty => .ok ({ p with st := .slave remote (.measuring h.seq none (some corrected)) delay last }, [])
-      else
-        let dup : Bool := match sync with | .measuring id _ _ => decide (id = h.seq) | .empty => false
-        if dup then .ok (p, [])
-        else do
-          let send ← liftOv (wireToTime origin)
-          ({ p with st := .slave remote (.measuring h.seq (some send) (some corrected)) delay last }).timeMeasurement
+    else orOv (timeSubDur recvTime (tivToDur h.correction)) fun corrected =>
+      p.syncStore remote sy dl last h origin corrected
   | _ => .ok (p, [])
+
+/-- `handle_follow_up` once the sender is the parent and the corrected send time is computed -/
+def Port.followUpStore (p : Port) (remote : PortId) (sy : SyncSt) (dl : DelaySt) (last : Option Int)
+    (h : Header) (send : Nat) : R (Port × List Out) :=
+  match sy with
+  | .measuring id s recv =>
+    if id = h.seq then
+      (match s with
+       | some _ => .ok (p, [])
+       | none => (p.withSlave remote (.measuring id (some send) recv) dl last).timeMeasurement)
+    else (p.withSlave remote (.measuring h.seq (some send) none) dl last).timeMeasurement
+  | .empty => (p.withSlave remote (.measuring h.seq (some send) none) dl last).timeMeasurement
 
 def Port.handleFollowUp (p : Port) (h : Header) (origin : WireTs) : R (Port × List Out) :=
   match p.st with
-  | .slave remote sync delay last =>
+  | .slave remote sy dl last =>
     if remote ≠ h.src then .ok (p, [])
-    else do
-      let t0 ← liftOv (wireToTime origin)
-      let send ← liftOv (timeAddDur t0 (tivToDur h.correction))
-      match sync with
-      | .measuring id s recv =>
-        if id = h.seq then
-          (match s with
-           | some _ => .ok (p, [])
-           | none => ({ p with st := .slave remote (.measuring id (some send) recv) delay last }).timeMeasurement)
-        else ({ p with st := .slave remote (.measuring h.seq (some send) none) delay last }).timeMeasurement
-      | .empty => ({ p with st := .slave remote (.measuring h.seq (some send) none) delay last }).timeMeasurement
+    else orOv (wireToTime origin) fun t0 =>
+      orOv (timeAddDur t0 (tivToDur h.correction)) fun send =>
+        p.followUpStore remote sy dl last h send
   | _ => .ok (p, [])
 
 def Port.handleDelayResp (p : Port) (h : Header) (rx : WireTs) (req : PortId) : R (Port × List Out) :=
   match p.st with
-  | .slave remote sync delay last =>
+  | .slave remote sy dl last =>
     if p.id ≠ req ∨ remote ≠ h.src then .ok (p, [])
     else
-      match delay with
+      match dl with
       | .measuring id send recv =>
         if id = h.seq then
           (match recv with
            | some _ => .ok (p, [])
-           | none => do
-             let t0 ← liftOv (wireToTime rx)
-             let r ← liftOv (timeSubDur t0 (tivToDur h.correction))
-             ({ p with st := .slave remote sync (.measuring id send (some r)) last }).timeMeasurement)
+           | none =>
+             orOv (wireToTime rx) fun t0 =>
+               orOv (timeSubDur t0 (tivToDur h.correction)) fun r =>
+                 (p.withSlave remote sy (.measuring id send (some r)) last).timeMeasurement)
         else .ok (p, [])
       | .empty => .ok (p, [])
   | _ => .ok (p, [])
@@ -318,11 +338,11 @@ def Port.handleDelayResp (p : Port) (h : Header) (rx : WireTs) (req : PortId) : 
 /-- `handle_delay_timestamp` (transmit timestamp of our Delay_Req) -/
 def Port.handleDelayTs (p : Port) (tsId : Nat) (ts : Nat) : R (Port × List Out) :=
   match p.st with
-  | .slave remote sync (.measuring id send recv) last =>
+  | .slave remote sy (.measuring id send recv) last =>
     if id = tsId then
       (match send with
        | some _ => .ok (p, [])
-       | none => ({ p with st := .slave remote sync (.measuring id (some ts) recv) last }).timeMeasurement)
+       | none => (p.withSlave remote sy (.measuring id (some ts) recv) last).timeMeasurement)
     else .ok (p, [])
   | _ => .ok (p, [])
 
